@@ -1,4 +1,5 @@
 import USimModel.Props.MachineFifo
+import USimModel.Props.C20
 /-!
 # The current time step is a FIFO queue - over any number of steps (C02, C20)
 
@@ -60,6 +61,17 @@ theorem never_overtaken {w w' : World Rat} (h : WithinStep w w') (pre post : Lis
     obtain ⟨m, hm⟩ : ∃ m, k - pre.length = m + 1 := ⟨k - pre.length - 1, by omega⟩
     rw [hm, List.drop_succ_cons]
     simp
+
+/-- **C20 for every program**: an operation that postpones (`doPostpone`) puts its own wake-up behind everything that is runnable,
+and it stays there: after any number of steps inside the time step the deque is *the old deque followed by that wake-up*, minus
+`k` elements at the front, plus whatever was appended later.  The wake-up is taken only when `k` exceeds the length of the old
+deque - when every activation that was runnable at the moment of the postponement has been taken before it -/
+theorem postponed_runs_after_everything_runnable (w : World Rat) (a : ActId) (fs : List (Frame Rat)) (ha : a < w.acts.size)
+    {w' : World Rat} (h : WithinStep (w.doPostpone a fs) w') :
+    ∃ wake k l, w'.pending = (w.pending ++ [⟨a, some wake⟩]).drop k ++ l := by
+  obtain ⟨_, wake, hp⟩ := postpone_hibernates w a fs ha
+  obtain ⟨k, l, hk⟩ := within_time_step_fifo h
+  exact ⟨wake, k, l, by rw [hk, hp]⟩
 
 end World
 end USim.Machine
